@@ -257,6 +257,18 @@ class World:
                     lhs, backtrack=bt == "T", transfer=tr == "T"
                 )
                 return self.report(n, "same" if res is lhs else "new", res)
+            case ["predjoin", px, ln, rn]:
+                # use a predicate OBJECT in a join, then look at what it declares afterwards
+                p = self.pred(px)
+                before = show_cols(p.columns_required)
+                try:
+                    self.pool[ln].join(self.pool[rn], p)
+                    used = "joined"
+                except Exception as e:  # noqa: BLE001
+                    used = "err:" + type(e).__name__
+                after = show_cols(p.columns_required)
+                fresh = show_cols(self.pred(px).columns_required)
+                return f"ok before={before} after={after} fresh={fresh} used={used}"
             case ["chain", n, ln, rn]:
                 res = self.pool[ln].chain(self.pool[rn])
                 return self.report(n, "new", res)
@@ -319,7 +331,11 @@ class World:
                 if not isinstance(r.engine, iteration.Engine):
                     return "bad-exec"
                 before = dict(self.counters)
-                it = r.engine.execute(r)
+                try:
+                    it = r.engine.execute(r)
+                except Exception as e:  # noqa: BLE001
+                    # report what was iterated before the exception (C18 speaks about it)
+                    return f"err {exc_name(e)} pulls_exec={self.pulls(before)}"
                 pe = self.pulls(before)
                 try:
                     before = dict(self.counters)
@@ -350,6 +366,25 @@ class World:
                     f"ok first={first} second={proto.show_uop(c.second)} done={show_bool(c.done)} "
                     f"cur={proto.show_uop(cur)}"
                 )
+            case ["commutej", fn, commons, px, cx, tn]:
+                # a PartialJoin (explicit common columns, fixed operand fn) commuted past `cur` applied to tn
+                from lsst.daf.relation import Join
+                t, fixed = self.pool[tn], self.pool[fn]
+                cur = self.uop(cx)
+                common = self.cols(commons)
+                pj = Join(self.pred(px), min_columns=common, max_columns=common).partial(fixed)
+                current = UnaryOperationRelation(operation=cur, target=t, columns=cur.applied_columns(t))
+                c = pj.commute(current)
+                if c.first is None:
+                    return f"ok first=- second={proto.show_uop(c.second)} done={show_bool(c.done)} cur={proto.show_uop(cur)}"
+                # both reported operations must be well-formed where they would be applied
+                wf_first = c.first.columns_required <= t.columns and common <= t.columns
+                after_first = frozenset(t.columns | fixed.columns)
+                wf_second = c.second.columns_required <= after_first and not (
+                    isinstance(c.second, Calculation) and c.second.tag in after_first)
+                same = "T" if c.first is pj or c.first == pj else "F"
+                return (f"ok first=join:{same} second={proto.show_uop(c.second)} done={show_bool(c.done)} "
+                        f"cur={proto.show_uop(cur)} wf={show_bool(wf_first and wf_second)}")
             case ["commutesem", nx, cx, tn]:
                 t = self.pool[tn]
                 new, cur = self.uop(nx), self.uop(cx)
@@ -402,10 +437,14 @@ class World:
                 eng.functions.update(next(iter(self.engines.values())).functions if self.engines else {})
 
                 def ev(r):
+                    # the engine converts a predicate ONCE and applies the callable to every row: apply the
+                    # same callable several times; a callable whose answers differ is not a function of the row
                     try:
-                        return show_bool(bool(eng.convert_predicate(p)(r)))
+                        f = eng.convert_predicate(p)
+                        vals = [show_bool(bool(f(r))) for _ in range(3)]
                     except Exception:  # noqa: BLE001
                         return "err"
+                    return vals[0] if len(set(vals)) == 1 else "unstable:" + "".join(vals)
 
                 restricted = {k: v for k, v in row.items() if k in p.columns_required}
                 sqle = sql.Engine(name="tmpsql")
